@@ -1,0 +1,14 @@
+//go:build verif
+
+// Contracts for the gowp verifier (/verif). Comment-only; compiled only with -tags verif.
+package rueidislimiter
+
+// ---------------------------------------------------------------------------------------------
+// C38 — the Go side of the rate limiter: the admission decision computed from the script's reply (current, resetAt).
+// The Lua script itself (running sum per window, atomic under EVAL) is assumed.
+//@ func rateLimiter.AllowN
+//@   modifies *
+//@   ensures [C38 negative-request-is-rejected] n < 0 ==> result1 != nil
+//@   ensures [C38 decision where-defined] result1 == nil ==> ((result0.Allowed <==> (current <= rl.limit && (n > 0 || current < rl.limit))) && result0.Remaining == max(rl.limit - current, 0) && result0.ResetAtMs == resetAt)
+//@   ensures [C38 admitted-request-fits where-defined] (result1 == nil && result0.Allowed && n > 0) ==> current <= rl.limit
+//@   ensures [C38 error-gives-no-decision] result1 != nil ==> (!result0.Allowed && result0.Remaining == 0 && result0.ResetAtMs == 0)
